@@ -30,6 +30,13 @@ fn streams(prefix: &[(String, usize)]) -> HashMap<String, Vec<usize>> {
 /// Explores every schedule of `input` (up to `deviation_bound` non-default answers, and at most
 /// `cap` schedules) and calls `visit` with each execution's outcome and trace.
 pub fn explore(input: &Input, deviation_bound: Option<usize>, cap: u64, mut visit: impl FnMut(&Outcome, &[Choice])) -> Stats {
+    explore_with(|_| input.clone(), deviation_bound, cap, |_, outcome, trace| visit(outcome, trace))
+}
+
+/// Like [`explore`], with the input rebuilt for every schedule (`make(schedule index)`): the
+/// schedules must only differ in data the subject's control flow does not depend on (e.g. a
+/// per-execution nonce inside attribute values).
+pub fn explore_with(mut make: impl FnMut(u64) -> Input, deviation_bound: Option<usize>, cap: u64, mut visit: impl FnMut(u64, &Outcome, &[Choice])) -> Stats {
     let mut stats = Stats::default();
     let mut stack: Vec<Vec<(String, usize)>> = vec![Vec::new()];
     while let Some(prefix) = stack.pop() {
@@ -37,9 +44,10 @@ pub fn explore(input: &Input, deviation_bound: Option<usize>, cap: u64, mut visi
             stats.capped = true;
             break;
         }
-        let mut run_input = input.clone();
+        let mut run_input = make(stats.schedules);
         run_input.choices = streams(&prefix);
         let (outcome, trace, diverged) = librun::run_traced(&run_input);
+        let index = stats.schedules;
         stats.schedules += 1;
         if let Some(d) = diverged {
             stats.divergence = Some(d);
@@ -53,7 +61,7 @@ pub fn explore(input: &Input, deviation_bound: Option<usize>, cap: u64, mut visi
         stats.max_choice_points = stats.max_choice_points.max(trace.len());
         let deviations = |upto: usize| trace[..upto].iter().filter(|t| t.chosen != 0).count();
         stats.max_deviations = stats.max_deviations.max(deviations(trace.len()));
-        visit(&outcome, &trace);
+        visit(index, &outcome, &trace);
         for i in (prefix.len()..trace.len()).rev() {
             if deviation_bound.is_some_and(|b| deviations(i) + 1 > b) {
                 continue;
